@@ -3,7 +3,7 @@
 #ifndef TETL_ALGORITHM_SHIFT_RIGHT_HPP
 #define TETL_ALGORITHM_SHIFT_RIGHT_HPP
 
-#include <etl/_algorithm/move.hpp>
+#include <etl/_algorithm/move_backward.hpp>
 #include <etl/_concepts/emulation.hpp>
 #include <etl/_iterator/distance.hpp>
 #include <etl/_iterator/iterator_traits.hpp>
@@ -32,26 +32,15 @@ constexpr auto shift_right(BidiIt first, BidiIt last, typename etl::iterator_tra
 {
     // The standard only checks for n == 0. n < 0 would be undefined behavior.
     // This implementation does nothing if n < 0.
-    if (n <= 0 or n >= etl::distance(first, last)) {
+    if (n <= 0) {
+        return first;
+    }
+    if (n >= etl::distance(first, last)) {
         return last;
     }
 
-    auto dest = etl::prev(last);
-    auto src  = etl::prev(dest, n);
-    for (; src != first; --dest, (void)--src) {
-        *dest = etl::move(*src);
-    }
-
-    // Elements outside the new range should be left in a valid but unspecified state.
-    // If the value type has a default constructor we do a little cleanup.
-    using value_type = typename etl::iterator_traits<BidiIt>::value_type;
-    if constexpr (is_default_constructible_v<value_type>) {
-        for (; dest != first; --dest) {
-            *dest = value_type{};
-        }
-    }
-
-    return etl::next(first, n);
+    // Elements outside the new range are left in a valid but unspecified (moved-from) state.
+    return etl::move_backward(first, etl::prev(last, n), last);
 }
 
 } // namespace etl
